@@ -186,7 +186,7 @@ def parse4 (s : Str) : Option IP4 :=
   | _ => none
 
 def show4 (x : IP4) : Str :=
-  showDec x.a ++ 46 :: showDec x.b ++ 46 :: showDec x.c ++ 46 :: showDec x.d
+  showDec x.a ++ (46 :: (showDec x.b ++ (46 :: (showDec x.c ++ (46 :: showDec x.d)))))
 
 inductive Host (α : Type) where
   | name (s : Str)
